@@ -3,11 +3,22 @@ import MesaModel.Model.Collect
 References and `deepcopy` (property C12, "immune to later mutation of the model").
 
 `Model/Collect.lean` treats a model attribute that holds a mutable list as a *value*: the aliasing between what
-`collect` stored and the live object is not expressible there.  This file models exactly that part with a heap:
-a mutable list is an object with an address, attributes (and stored entries) hold references, two attributes may
-name the same object, `append` mutates the object in place, and `collect` stores `copy(value)` for a string
-reporter — `deepcopy` in the code (`copy.deepcopy(getattr(model, reporter, None))`), parametrised here so that the
-aliasing version (`copy = identity`) can be stated and refuted.
+`collect` stored and the live object is not expressible there.  This file models exactly that part with a heap of
+NESTED objects: a mutable list is an object with an identity (address); its items are `None`, ints or REFERENCES to
+other objects (`[[1], [2]]` is three objects); attributes (and stored entries) hold references; two attributes, or an
+attribute and an item of another object, may name the same object; an object may contain itself.  Mutations address an
+object by a path from an attribute (`model.a[p0][p1]…`) and append an int or a reference in place, or remove the last
+item.  `collect` stores `copy(value)` for a string reporter — `deepcopy` in the code
+(`copy.deepcopy(getattr(model, reporter, None))`) — parametrised by the kind of copy so that the shallow copy
+(`list(v)` / `copy.copy(v)`: a new outer object whose items are the same references) and no copy at all (the reference is
+stored) can be stated and refuted.
+
+`deepcopy` gives every object reachable from the value a fresh identity and keeps the shape of the graph (sharing and
+cycles: the memo).  Here: the WHOLE heap of `n` objects is duplicated, object `r` to address `r + n`, every reference
+inside a duplicate shifted by `n`; the stored value is the shifted reference.  For the objects reachable from the value
+this is exactly the isomorphic copy `deepcopy` builds; the duplicates of the other objects are referenced by nothing
+that existed before and by no attribute, so they are garbage that no read can reach (an over-approximation of
+allocation, not of behaviour).
 -/
 namespace Mesa.CollectHeap
 open Mesa.Collect
@@ -15,60 +26,116 @@ open Mesa.Collect
 inductive HVal where
   | none
   | int (i : Int)
-  | ref (addr : Nat)          -- a mutable list object
+  | ref (addr : Nat)          -- the identity of a mutable list object
 deriving Repr, DecidableEq
 
+/-- an object: a list whose items are `None`, ints or references to objects -/
+abbrev Obj := List HVal
+/-- address = position; objects are allocated at the end and never freed -/
+abbrev Heap := List Obj
+
 structure HSt where
-  heap : List (List Int)      -- address = position; objects are allocated at the end and never freed
+  heap : Heap
   attrs : List (Nat × HVal)   -- model attributes
   col : List HVal             -- `model_vars[name]` of the one reporter
 deriving Repr, DecidableEq
 
 def getH (attrs : List (Nat × HVal)) (a : Nat) : HVal := (attrs.lookup a).getD .none
 
-/-- what a reference shows when it is read now -/
-def resolve (heap : List (List Int)) : HVal → Val
-  | .none => .none
-  | .int i => .int i
-  | .ref r => .list (heap[r]?.getD [])
+/-- what reading a value shows, as a tree; `cut` stands for an object below the reading depth -/
+inductive Tree where
+  | none
+  | int (i : Int)
+  | cut
+  | node (items : List Tree)
+deriving Repr
+
+/-- what a value shows when it is read now, down to depth `d` (an object may contain itself: the tree a reference
+    denotes can be infinite, every finite depth of it is a `Tree`; a tree without `cut` is the whole value) -/
+def read : Nat → Heap → HVal → Tree
+  | _, _, .none => .none
+  | _, _, .int i => .int i
+  | 0, _, .ref _ => .cut
+  | d + 1, heap, .ref r => .node ((heap[r]?.getD []).map (read d heap))
+
+/-- `v[p0][p1]…` — `none` for what raises in Python (subscript of None / an int, index out of range) -/
+def follow (heap : Heap) : HVal → List Nat → Option HVal
+  | v, [] => some v
+  | .ref r, p :: ps =>
+    match (heap[r]?.getD [])[p]? with
+    | some it => follow heap it ps
+    | Option.none => Option.none
+  | _, _ :: _ => Option.none
 
 inductive HOp where
-  | setInt (a : Nat) (i : Int)          -- `model.a = i`
-  | setNew (a : Nat) (xs : List Int)    -- `model.a = [..]`   (a new object)
-  | alias (a b : Nat)                   -- `model.a = model.b` (two names for one object)
-  | app (a : Nat) (x : Int)             -- `model.a.append(x)` (in place)
-  | collect (a : Nat)                   -- `collect` with the string reporter `"a"`
+  | setInt (a : Nat) (i : Int)                       -- `model.a = i`
+  | setNew (a : Nat) (xs : List Int)                 -- `model.a = [..]`   (a new object)
+  | bind (a b : Nat) (pb : List Nat)                 -- `model.a = model.b[p0][p1]…`  (rebind: one more name for an object)
+  | app (a : Nat) (pa : List Nat) (x : Int)          -- `model.a[p0]….append(x)`  (in place)
+  | appRef (a : Nat) (pa : List Nat) (b : Nat) (pb : List Nat)   -- `model.a[p0]….append(model.b[q0]…)`: a reference is appended
+  | pop (a : Nat) (pa : List Nat)                    -- `model.a[p0]….pop()`
+  | collect (a : Nat)                                -- `collect` with the string reporter `"a"`
 deriving Repr, DecidableEq
 
-/-- `copy.deepcopy(v)` (`deep = true`): a list is copied into a new object; `deep = false`: the value itself is
-    stored (an alias of the live object) -/
-def copyVal (deep : Bool) (heap : List (List Int)) (v : HVal) : List (List Int) × HVal :=
-  match deep, v with
-  | true, .ref r => (heap ++ [heap[r]?.getD []], .ref heap.length)
+inductive Copy where
+  | deep      -- `copy.deepcopy(v)`
+  | shallow   -- `list(v)` / `copy.copy(v)`
+  | alias     -- `v`
+deriving Repr, DecidableEq
+
+def shiftVal (n : Nat) : HVal → HVal
+  | .ref r => .ref (r + n)
+  | v => v
+
+def copyVal (c : Copy) (heap : Heap) (v : HVal) : Heap × HVal :=
+  match c, v with
+  | .deep, .ref r => (heap ++ heap.map (·.map (shiftVal heap.length)), .ref (r + heap.length))
+  | .shallow, .ref r => (heap ++ [heap[r]?.getD []], .ref heap.length)
   | _, v => (heap, v)
 
-def applyH (deep : Bool) (s : HSt) : HOp → HSt
+/-- the object a mutation addresses (`none`: the access raises, caught by the caller, nothing changes) -/
+def target (s : HSt) (a : Nat) (pa : List Nat) : Option Nat :=
+  match follow s.heap (getH s.attrs a) pa with
+  | some (.ref r) => some r
+  | _ => Option.none
+
+def applyH (c : Copy) (s : HSt) : HOp → HSt
   | .setInt a i => { s with attrs := setKey a (.int i) s.attrs }
-  | .setNew a xs => { s with heap := s.heap ++ [xs], attrs := setKey a (.ref s.heap.length) s.attrs }
-  | .alias a b => { s with attrs := setKey a (getH s.attrs b) s.attrs }
-  | .app a x =>
-    match getH s.attrs a with
-    | .ref r => { s with heap := s.heap.set r (s.heap[r]?.getD [] ++ [x]) }
-    | _ => s                                                   -- AttributeError, caught
+  | .setNew a xs => { s with heap := s.heap ++ [xs.map .int], attrs := setKey a (.ref s.heap.length) s.attrs }
+  | .bind a b pb =>
+    match follow s.heap (getH s.attrs b) pb with
+    | some v => { s with attrs := setKey a v s.attrs }
+    | Option.none => s
+  | .app a pa x =>
+    match target s a pa with
+    | some r => { s with heap := s.heap.set r (s.heap[r]?.getD [] ++ [.int x]) }
+    | Option.none => s
+  | .appRef a pa b pb =>
+    match target s a pa, follow s.heap (getH s.attrs b) pb with
+    | some r, some v => { s with heap := s.heap.set r (s.heap[r]?.getD [] ++ [v]) }
+    | _, _ => s
+  | .pop a pa =>
+    match target s a pa with
+    | some r => { s with heap := s.heap.set r (s.heap[r]?.getD []).dropLast }
+    | Option.none => s
   | .collect a =>
-    let c := copyVal deep s.heap (getH s.attrs a)
-    { s with heap := c.1, col := s.col ++ [c.2] }
+    let cv := copyVal c s.heap (getH s.attrs a)
+    { s with heap := cv.1, col := s.col ++ [cv.2] }
 
-def runH (deep : Bool) (s : HSt) (ops : List HOp) : HSt := ops.foldl (applyH deep) s
+def runH (c : Copy) (s : HSt) (ops : List HOp) : HSt := ops.foldl (applyH c) s
 
-/-- what the reporter showed at the moment of each collect of the history -/
-def seen (deep : Bool) : HSt → List HOp → List Val
+/-- what the reporter showed, to depth `d`, at the moment of each collect of the history -/
+def seen (c : Copy) (d : Nat) : HSt → List HOp → List Tree
   | _, [] => []
   | s, op :: ops =>
     (match op with
-     | .collect a => [resolve s.heap (getH s.attrs a)]
-     | _ => []) ++ seen deep (applyH deep s op) ops
+     | .collect a => [read d s.heap (getH s.attrs a)]
+     | _ => []) ++ seen c d (applyH c s op) ops
 
 def empty : HSt := { heap := [], attrs := [], col := [] }
+
+/-- what the stored column shows, entry by entry and to depth `d`, when it is read after the history `ops` -/
+def stored (c : Copy) (d : Nat) (ops : List HOp) : List Tree :=
+  (runH c empty ops).col.map (read d (runH c empty ops).heap)
 
 end Mesa.CollectHeap
